@@ -42,7 +42,10 @@ def parse_vname(s):
     if not m:
         return None
     ds = m.group(1)
-    return int(ds), (len(ds) if ds.startswith("0") else 0)
+    sig = ds.lstrip("0")                  # the padding can be tens of thousands of digits long
+    if len(sig) > 12:
+        return None
+    return (int(sig) if sig else 0), (len(ds) if ds.startswith("0") else 0)
 
 
 # --------------------------------------------------------------------------- worlds
@@ -481,8 +484,8 @@ def run_sequence(world, ops, validate=True):
 
 
 def parse_check(s):
-    """'[(0, false, false); (3, true, false)]' -> [(0, False, False), (3, True, False)]"""
-    return [(int(a), b == "true", c == "true") for a, b, c in re.findall(r"\((\d+), (true|false), (true|false)\)", s)]
+    """'[(0, false); (3, true)]' -> [(0, False), (3, True)]"""
+    return [(int(a), b == "true") for a, b in re.findall(r"\((\d+), (true|false)\)", s)]
 
 
 # --------------------------------------------------------------------------- workers
@@ -666,6 +669,24 @@ def random_sequence(rng, nclients, length, ids, widths):
     return ops
 
 
+WIDE_WIDTHS = [254, 255, 65535, 65536, 70000]
+
+
+def wide_scenarios():
+    """very wide paddings (fix d5a9e2d: Display pads by hand): must not panic and must not wedge the
+    staging root; from width 255 on the version directory name exceeds NAME_MAX and the operating
+    system refuses every cp / commit - cleanly: nothing changes, reset recovers.  The last five
+    operations (after the reset) must succeed."""
+    out = []
+    for w in WIDE_WIDTHS:
+        t = Tok()
+        ops = [("new", 0, OID, w), t.stage(0), ("commit", 0, OID), t.stage(0), ("commit", 0, OID), ("new", 1, OID, w),
+               ("reset", 0, OID), ("reset", 1, OID), ("purge", 1, OID),
+               ("new", 0, OID, 2), t.stage(0), ("commit", 0, OID), t.stage(1), ("commit", 1, OID)]
+        out.append(("wide-%d" % w, 2, ops))
+    return out
+
+
 def scenarios(thorough=False):
     """hand-written interleavings: the reproduced finding and its boundary, races, width maxima"""
     out = []
@@ -721,12 +742,15 @@ def scenarios(thorough=False):
                                       t.stage(0), t.stage(1), ("commit", 0, OID), ("commit", 1, OID),
                                       ("new", 1, OID, 2), ("purge", 0, OID), ("new", 1, OID, 2), ("commit", 1, OID)]
     out.append(("width-2-maximum", 2, ops))
-    # the overflow class of the first half seen from two clients (debug build: the clone panics)
-    t = Tok()
-    out.append(("width-11", 2, prefix_versions(t, 11, 1) + [t.stage(1), ("commit", 1, OID), t.stage(0), ("commit", 0, OID)]))
-    if thorough:
+    # padding widths of the former overflow class (fix 476b184): ordinary objects now, several versions, two clients
+    for w in (11, 20):
         t = Tok()
-        ops = prefix_versions(t, 3, 98) + [t.stage(0), t.stage(1), ("commit", 0, OID), ("commit", 1, OID), ("reset", 1, OID),
-                                           t.stage(1), ("commit", 1, OID)]
-        out.append(("width-3-maximum", 2, ops))
+        ops = prefix_versions(t, w, 3) + [t.stage(0), t.stage(1), ("commit", 1, OID), ("commit", 0, OID), ("reset", 0, OID),
+                                          t.stage(0), ("commit", 0, OID), t.stage(1), ("commit", 1, OID)]
+        out.append(("width-%d" % w, 2, ops))
+    # width 3 stops at v99
+    t = Tok()
+    ops = prefix_versions(t, 3, 98) + [t.stage(0), t.stage(1), ("commit", 0, OID), ("commit", 1, OID), ("reset", 1, OID),
+                                       t.stage(1), ("commit", 1, OID)]
+    out.append(("width-3-maximum", 2, ops))
     return out
